@@ -70,15 +70,19 @@ enum Kind {
     WsScheme,
     HttpScheme,
     HttpsScheme,
+    /// `/adpath$removeparam=p,...`: implied types are document, subdocument and xhr; negated
+    /// types do not switch on "all network types"; observed through the rewrite, never blocks
+    RemoveParam,
 }
 
-const KINDS: [Kind; 6] = [
+const KINDS: [Kind; 7] = [
     Kind::Plain,
     Kind::HostCaret,
     Kind::Exception,
     Kind::WsScheme,
     Kind::HttpScheme,
     Kind::HttpsScheme,
+    Kind::RemoveParam,
 ];
 
 #[derive(Clone, Debug, Default)]
@@ -166,6 +170,16 @@ fn reference(kind: Kind, o: &Opts, rq: &ReqDesc) -> bool {
             }
         }
     }
+    if kind == Kind::RemoveParam {
+        if ty == "csp" || o.neg.contains(&ty) {
+            return false;
+        }
+        return if o.pos.is_empty() && !o.doc {
+            matches!(ty, "document" | "subdocument" | "xmlhttprequest")
+        } else {
+            (ty == "document" && o.doc) || o.pos.contains(&ty)
+        };
+    }
     let implicit_all = kind == Kind::HostCaret && o.pos.is_empty() && o.neg.is_empty() && !o.doc;
     if ty == "document" {
         o.doc || implicit_all || kind == Kind::Exception
@@ -222,6 +236,9 @@ fn spell_rule(r: Option<&mut Rng>, kind: Kind, o: &Opts) -> String {
     if o.important {
         opts.push("important".into());
     }
+    if kind == Kind::RemoveParam {
+        opts.push("removeparam=p".into());
+    }
     if let Some(r) = rr.as_deref_mut() {
         r.shuffle(&mut opts);
     }
@@ -232,6 +249,7 @@ fn spell_rule(r: Option<&mut Rng>, kind: Kind, o: &Opts) -> String {
         Kind::WsScheme => "|ws://",
         Kind::HttpScheme => "|http://",
         Kind::HttpsScheme => "|https://",
+        Kind::RemoveParam => "/adpath",
     };
     if opts.is_empty() {
         pat.to_string()
@@ -264,6 +282,15 @@ struct Out {
 fn check_rule(kind: Kind, o: &Opts, line: &str, sources: &[(&str, bool, Option<&str>)], types: &[&str]) -> Option<Out> {
     let f = NetworkFilter::parse(line, true, Default::default()).ok()?;
     let e = Engine::from_rules_debug([line], Default::default());
+    // the same single-rule engine after a serialization round trip (removeparam rules do not
+    // survive serialization: known finding homed in C08)
+    let e2 = if kind == Kind::RemoveParam {
+        None
+    } else {
+        let mut x = Engine::default();
+        x.deserialize(&e.serialize_raw().ok()?).ok()?;
+        Some(x)
+    };
     let mut rm = RegexManager::default();
     let mut out = Out {
         evals: 0,
@@ -275,7 +302,7 @@ fn check_rule(kind: Kind, o: &Opts, line: &str, sources: &[(&str, bool, Option<&
     for scheme in SCHEMES {
         for (src, third, shost) in sources {
             for rt in types {
-                let url = format!("{}://ads.net/adpath", scheme);
+                let url = if kind == Kind::RemoveParam { format!("{}://ads.net/adpath?p=1", scheme) } else { format!("{}://ads.net/adpath", scheme) };
                 let rq = match Request::new(&url, src, rt) {
                     Ok(rq) => rq,
                     Err(_) => continue,
@@ -313,8 +340,25 @@ fn check_rule(kind: Kind, o: &Opts, line: &str, sources: &[(&str, bool, Option<&
                         json!({"rule": line, "url": url, "source": src, "type": rt, "rule_matches": got_rule, "reference": exp}),
                     ));
                 }
+                if let Some(e2) = &e2 {
+                    let b2 = e2.check_network_request(&rq);
+                    if (b2.matched, b2.important, b2.exception.is_some()) != (b.matched, b.important, b.exception.is_some()) {
+                        out.viol.push((
+                            "C03:options-change-across-serialization".into(),
+                            json!({"rule": line, "url": url, "source": src, "type": rt, "engine_matched": b.matched, "reloaded_engine_matched": b2.matched}),
+                        ));
+                    }
+                }
                 // engine level: unsupported schemes never match; blocking kinds: matched == exp
-                if kind != Kind::Exception {
+                if kind == Kind::RemoveParam {
+                    let rewritten = b.rewritten_url.is_some();
+                    if rewritten != exp || b.matched {
+                        out.viol.push((
+                            format!("C03:engine-options:RemoveParam:{}", if b.matched { "blocks" } else if rewritten { "rewrites-but-should-not" } else { "should-rewrite-but-does-not" }),
+                            json!({"rule": line, "url": url, "source": src, "type": rt, "engine_rewritten_url": b.rewritten_url, "reference_applies": exp}),
+                        ));
+                    }
+                } else if kind != Kind::Exception {
                     if b.matched != exp {
                         out.viol.push((
                             format!("C03:engine-options:{:?}:{}", kind, if b.matched { "blocked-but-should-not" } else { "should-block-but-does-not" }),
@@ -494,7 +538,7 @@ fn exhaustive(ctx: &mut Ctx) {
                 for party in ["", "3p", "~3p", "1p", "~1p"] {
                     for important in [false, true] {
                         idx += 1;
-                        if kind == Kind::Exception && important {
+                        if (kind == Kind::Exception || kind == Kind::RemoveParam) && important {
                             continue;
                         }
                         if ctx.stop() {
@@ -522,7 +566,7 @@ fn exhaustive(ctx: &mut Ctx) {
     }
     if complete && ctx.only_case.is_none() {
         ctx.report.exhaustive.push(format!(
-            "option sets with <= {} type atoms x document x party x important x 6 rule kinds x 22 request type strings x 7 initiators x 6 schemes (this shard's share)",
+            "option sets with <= {} type atoms x document x party x important x 7 rule kinds x 22 request type strings x 7 initiators x 6 schemes (this shard's share)",
             "2"
         ));
     }
@@ -587,7 +631,7 @@ fn random_domains(ctx: &mut Ctx) {
             }
             o.doc = r.chance(1, 6);
             o.party = r.ps(&["", "", "3p", "~3p", "1p", "~1p", "third-party", "first-party"]);
-            o.important = kind != Kind::Exception && r.chance(1, 5);
+            o.important = kind != Kind::Exception && kind != Kind::RemoveParam && r.chance(1, 5);
             line = spell_rule(Some(&mut r), kind, &o);
             let types: Vec<&str> = (0..5).map(|_| r.ps(REQ_TYPES)).collect();
             check_rule(kind, &o, &line, SOURCES, &types)
